@@ -73,12 +73,15 @@ def _limit_mem():
     resource.setrlimit(resource.RLIMIT_AS, (lim, lim))
 
 
+MAX_HANGS = 12
+
+
 def run_driver(driver, out, tier, seed, profile="dev", extra=None, timeout=3600):
     """Run a harness driver.  A call that hangs makes the driver record the hang and exit 3; it is then
     restarted behind the hanging call (generation is deterministic) and its output is appended."""
     exe = build_harness(profile)
     skip, total, parts = 0, 0, []
-    for attempt in range(200):
+    for attempt in range(MAX_HANGS):
         part = out if attempt == 0 else "%s.part%d" % (out, attempt)
         cmd = [exe, driver, "--out", part, "--tier", tier, "--seed", str(seed), "--skip", str(skip)] + (extra or [])
         p = subprocess.run(cmd, cwd=HARNESS, timeout=timeout, stdout=subprocess.PIPE, stderr=subprocess.STDOUT,
@@ -95,7 +98,9 @@ def run_driver(driver, out, tier, seed, profile="dev", extra=None, timeout=3600)
             continue
         raise ToolError("driver %s failed (%d):\n%s" % (driver, p.returncode, p.stdout[-4000:]))
     else:
-        raise ToolError("driver %s: too many hanging calls" % driver)
+        # every one of these calls is already recorded as a hang (and will be rejected by the trace specification);
+        # the rest of the driver's inputs is not generated -- the verdict does not need them
+        log("driver %s: %d hanging calls, the remaining inputs of this driver are skipped" % (driver, MAX_HANGS))
     if len(parts) > 1:
         with open(out, "a") as f:
             for part in parts[1:]:
